@@ -182,7 +182,7 @@ def build(S, tier):
                 why=f"{n_exit} exit paths, {sum(1 for q in paths if q.status == 'cut')} preservation paths")
 
     # ------------------------------------------------------------------ per-coordinate scaling masses on explicit atoms: ONE global minimum
-    def run_explicit(I):
+    def run_explicit(I, warm=False):
         from pyvc.models.explicit_atoms import AtomsExplicit
         from pyvc.values import Tensor
 
@@ -199,32 +199,43 @@ def build(S, tier):
         T, d, pw_ = I.path.fresh("T"), I.path.fresh("delta"), I.path.fresh("power")
         I.path.assume(z3.And(T.t > 0, d.t > 0))
         mc = I.call(I.get_class(FB), [at, d], {"temperature": T, "seed": 1})
+        if warm:
+            # the same object has already taken a step with OTHER scaling masses (same number of atoms): whatever it kept from
+            # that step, the bound of the next step follows the masses in force now
+            sm0 = Tensor((3, 3), [I.path.fresh(f"earlier_scaling_mass{j}") for j in range(9)])
+            for e in sm0.data:
+                I.path.assume(e.t > 0)
+            I.call(I.getattr(mc, "update_masses"), [sm0], {})
+            I.setattr(mc, "masses_scaling_power", pw_)
+            I.call(I.getattr(mc, "step"), [], {})
         sm = Tensor((3, 3), [I.path.fresh(f"scaling_mass{j}") for j in range(9)])
         for e in sm.data:
             I.path.assume(e.t > 0)
         I.call(I.getattr(mc, "update_masses"), [sm], {})
-        I.setattr(mc, "masses_scaling_power", pw_)
+        if not warm:
+            I.setattr(mc, "masses_scaling_power", pw_)        # (warm: the power was set before the earlier step and is not touched again)
         P0 = at.positions.copy()
         I.call(I.getattr(mc, "step"), [], {})
         return dict(at=at, P0=P0, sm=sm, d=d, pw=pw_, zeta=mc.attrs["zeta"])
 
-    label = f"{FB}.step[3 explicit atoms, per-coordinate scaling masses]"
-    for i, p in enumerate(S.explore(run_explicit, label, max_paths=60)):
-        S.adopt(p, prefix="[explicit]")
-        if p.status != "return":
-            if p.status == "raise":
-                S.prove(f"{label}#noraise@{i}", False, kind="noraise", why=f"raises {p.exc!r}")
-            continue
-        v = p.value
-        ms = [R(x) for x in v["sm"].data]
-        mmin = ms[0]
-        for x in ms[1:]:
-            mmin = z3.If(x < mmin, x, mmin)
-        cl = []
-        for j in range(9):
-            disp = R(v["at"].positions.data[j]) - R(v["P0"].data[j])
-            cl.append(disp == R(v["zeta"].data[j]) * v["d"].t * F_pow(mmin / ms[j], v["pw"].t))
-        S.prove(f"{label}#ensures.displacement_is_zeta_delta_times_global_min_mass_ratio_to_the_power@{i}", z3.And(cl), hyps=p.pc)
+    for warm in (False, True):
+        label = f"{FB}.step[3 explicit atoms, per-coordinate scaling masses]" + (", second step of the object after update_masses" if warm else "")
+        for i, p in enumerate(S.explore((lambda I, warm=warm: run_explicit(I, warm)), label, max_paths=120 if warm else 60)):
+            S.adopt(p, prefix="[explicit, second step]" if warm else "[explicit]")
+            if p.status != "return":
+                if p.status == "raise":
+                    S.prove(f"{label}#noraise@{i}", False, kind="noraise", why=f"raises {p.exc!r}")
+                continue
+            v = p.value
+            ms = [R(x) for x in v["sm"].data]
+            mmin = ms[0]
+            for x in ms[1:]:
+                mmin = z3.If(x < mmin, x, mmin)
+            cl = []
+            for j in range(9):
+                disp = R(v["at"].positions.data[j]) - R(v["P0"].data[j])
+                cl.append(disp == R(v["zeta"].data[j]) * v["d"].t * F_pow(mmin / ms[j], v["pw"].t))
+            S.prove(f"{label}#ensures.displacement_is_zeta_delta_times_global_min_mass_ratio_to_the_power@{i}", z3.And(cl), hyps=p.pc)
 
     # ------------------------------------------------------------------ lemmas about the acceptance function
     z, g = z3.Real("zeta_l"), z3.Real("gamma_l")
